@@ -4,6 +4,8 @@ package main
 // Every choice derives from one PRNG state, so (focus, seed) replays exactly.
 
 import (
+	"bufio"
+	"bytes"
 	"encoding/binary"
 	"fmt"
 	"math"
@@ -550,6 +552,162 @@ func (g *srvGen) opRegisterRace() {
 	g.s.Snap()
 }
 
+// injectable picks an interfering operation (report, rotation, ban) and returns a
+// closure that performs it on the real server while writing its trace lines into a buffer.
+func (g *srvGen) injectable() (string, func()) {
+	r := g.r
+	switch r.pick([]int{40, 30, 30}) {
+	case 0:
+		return "dgram", func() {
+			if len(g.devs) > 0 {
+				dv := g.devs[r.Intn(len(g.devs))]
+				d := MkReport(dv.id, g.tsChoice(), 2+uint64(r.Intn(1000)), dv.key.Priv).Serialize()
+				g.s.Dgram(d)
+				g.sent = append(g.sent, d)
+			}
+		}
+	case 1:
+		return "rotate", func() { g.s.Rotate() }
+	default:
+		return "ban", func() {
+			if len(g.authsSeen) > 0 {
+				ea := g.authsSeen[r.Intn(len(g.authsSeen))]
+				ea.Debt += 1 + uint64(r.Intn(5))
+				ea = SignAuth(ea, g.s.E.GCA.Priv)
+				g.s.Authorize(ea, false)
+				g.authsSeen = append(g.authsSeen, ea)
+			}
+		}
+	}
+}
+
+// opInject runs a multi-section operation of the server and lets an interfering
+// operation run exactly between two of its critical sections (verifPoint sites).
+// The trace lists the outer operation first (its answer must be explained by
+// the state BEFORE the injected operation for the parts computed in the first
+// section) and the injected operation after it.
+func (g *srvGen) opInject() {
+	r := g.r
+	kind, inj := g.injectable()
+	var buf bytes.Buffer
+	orig := g.s.T
+	tmp := &Trace{w: bufio.NewWriterSize(&buf, 1<<16), Stats: orig.Stats}
+	fired := false
+	run := func(point string, outer func()) {
+		server.VerifSetPoint(point, func() {
+			if fired {
+				return
+			}
+			fired = true
+			g.s.T = tmp
+			inj()
+			tmp.w.Flush()
+			g.s.T = orig
+		})
+		outer()
+		server.VerifSetPoint(point, nil)
+		orig.Lines += tmp.Lines
+		orig.w.Write(buf.Bytes())
+		orig.w.Flush()
+	}
+	switch r.pick([]int{35, 30, 20, 15}) {
+	case 0: // sync reply: offset, bitfield, key and migration come from ONE state (the one before the injection)
+		id := uint32(1 + r.Intn(5))
+		run("sync-between", func() {
+			raw, err := g.s.E.SyncRaw(id)
+			obs := "refused"
+			if err != nil {
+				obs = "ERR:" + err.Error()
+			} else if !(len(raw) == 1 && raw[0] == 0) {
+				obs = canonSyncReply(raw, g.s.E.S.PublicKey())
+			}
+			orig.Count("inject.sync:" + kind)
+			orig.Line("srv.sync id=%d => %s", id, obs)
+		})
+	case 1: // statistics: the record served is the one of the state before the injection
+		off := uint64(g.off())
+		tso := []uint64{off, off + 2016, 0}[r.Intn(3)]
+		run("stats-between", func() {
+			st, body, err := g.s.E.Get(fmt.Sprintf("/api/v1/all-device-stats?timeslot_offset=%d", tso))
+			obs := "refused"
+			if err != nil {
+				obs = "ERR:" + err.Error()
+			} else if st == 200 {
+				if w, derr := decodeStatsJSON(body); derr == nil {
+					obs = canonWeek(w)
+				} else {
+					obs = "ERR:json"
+				}
+			}
+			orig.Count("inject.stats:" + kind)
+			orig.Line("srv.stats tso=%d => %s", tso, obs)
+		})
+	case 2: // impact job: device list taken in the first section, rates written in later sections
+		var before server.VerifSnap
+		have := false
+		server.VerifSetPoint("impact-between", func() {
+			if fired {
+				return
+			}
+			fired = true
+			g.s.T = tmp
+			inj()
+			tmp.w.Flush()
+			g.s.T = orig
+			before = g.s.E.S.VerifSnapshot()
+			have = true
+		})
+		g.s.E.S.VerifImpactRound()
+		server.VerifSetPoint("impact-between", nil)
+		orig.Lines += tmp.Lines
+		orig.w.Write(buf.Bytes())
+		orig.w.Flush()
+		orig.Count("inject.impact:" + kind)
+		if have {
+			after := g.s.E.S.VerifSnapshot()
+			var lines []string
+			for id, imp := range after.Impact {
+				old := before.Impact[id]
+				for i := range imp {
+					if imp[i] != old[i] {
+						lines = append(lines, fmt.Sprintf("srv.impact id=%d ts=%d rate=%d", id, after.ReportsOffset+uint32(i), float64bits(imp[i])))
+					}
+				}
+			}
+			for i, l := range lines {
+				if i == len(lines)-1 {
+					g.s.emit(l, "ok")
+				} else {
+					orig.Line("%s => ok", l)
+				}
+			}
+		}
+	default: // server authorization: list update and equipment listing are separate sections
+		k := detKey(g.seed, 500+r.Intn(3))
+		as := server.AuthorizedServer{PublicKey: k.Pub, Banned: r.Chance(40), Location: "127.0.0.1", HttpPort: closedPortOnce(), TcpPort: 1, UdpPort: 2}
+		as.GCAAuthorization = glow.Sign(as.SigningBytes(), g.s.E.GCA.Priv)
+		run("authservers-between", func() {
+			snap := g.s.E.S.VerifSnapshot()
+			g.s.oracle(snap.GCAKey, as.SigningBytes(), as.GCAAuthorization)
+			st, _, err := g.s.E.PostJSON("/api/v1/authorized-servers", as)
+			obs := "refused"
+			if err != nil {
+				obs = "ERR:" + err.Error()
+			} else if st == 200 {
+				obs = "ok"
+			}
+			b := 0
+			if as.Banned {
+				b = 1
+			}
+			orig.Count("inject.authserver:" + kind)
+			orig.Line("srv.authserver e=%s key=%s banned=%d loc=%s http=%d tcp=%d udp=%d sig=%s => %s", hx(as.Serialize()), hx(as.PublicKey[:]), b,
+				hx([]byte(as.Location)), as.HttpPort, as.TcpPort, as.UdpPort, hx(as.GCAAuthorization[:]), obs)
+		})
+	}
+	g.s.Snap()
+}
+
 // weights per focus: dgram, authorize, clock, tick, restart, stats, sync, authserver, migrate, register, impact, rotate
 var focusWeights = map[string][]int{
 	"C01": {70, 6, 8, 2, 1, 3, 3, 1, 1, 1, 1, 1},
@@ -560,6 +718,8 @@ var focusWeights = map[string][]int{
 	"C07": {6, 25, 2, 0, 12, 1, 2, 10, 8, 30, 0, 0},
 	"C12": {35, 10, 14, 5, 4, 10, 6, 6, 5, 3, 1, 1},
 	"C17": {5, 8, 2, 0, 5, 1, 8, 36, 30, 5, 0, 0},
+	"C13": {25, 10, 8, 3, 3, 6, 6, 3, 3, 1, 2, 2, 28},
+	"C10": {25, 6, 8, 2, 2, 2, 20, 8, 8, 1, 0, 2, 16},
 }
 
 func runSrvScenario(focus string, seed uint64, size int, t *Trace) error {
@@ -633,6 +793,8 @@ func runSrvScenario(focus string, seed uint64, size int, t *Trace) error {
 			s.ImpactRound()
 		case 11:
 			s.Rotate()
+		case 12:
+			g.opInject()
 		}
 	}
 	if !s.Lost {
@@ -693,7 +855,7 @@ func runMany(child []string, base uint64, n int, par int, size int, out *os.File
 				panicLine = l
 			}
 			if strings.HasPrefix(l, "scenario ") || strings.HasPrefix(l, "srv.") || strings.HasPrefix(l, "v ") || strings.HasPrefix(l, "# ") ||
-				strings.HasPrefix(l, "el.") || strings.HasPrefix(l, "rl.") || strings.HasPrefix(l, "codec.") || strings.HasPrefix(l, "ts.") || strings.HasPrefix(l, "cl.") {
+				strings.HasPrefix(l, "el.") || strings.HasPrefix(l, "rl.") || strings.HasPrefix(l, "c14.") || strings.HasPrefix(l, "c08.") || strings.HasPrefix(l, "c05.") || strings.HasPrefix(l, "crypto.") || strings.HasPrefix(l, "codec.") || strings.HasPrefix(l, "ts.") || strings.HasPrefix(l, "cl.") {
 				keep = append(keep, l)
 			}
 		}
